@@ -145,10 +145,16 @@ ReadAll(t, lc) == ReadFrom(t, LFPositions(t), 0, lc)
 SepIndex(ln)        == CHOOSE i \in 1..Len(ln) : ln[i] = SP
 InHexPart(ln, i)    == i > SepIndex(ln) /\ i < Len(ln)
 IsJunkCh(c)         == c \in 33..126 /\ ~IsHexCh(c, TRUE)
+\* "nonhex2": one whole byte (an aligned PAIR of hex digits) is replaced by two copies of a character that is no hex
+\* digit -- any character but LF and the separator, control characters such as CR or TAB included: the remaining digits
+\* still pair up, so only a reader that really looks at every character notices
+IsJunk2Ch(c)        == c \in 1..255 /\ c # LF /\ c # SP /\ ~IsHexCh(c, TRUE)
+PairStart(ln, i)    == InHexPart(ln, i) /\ InHexPart(ln, i + 1) /\ (i - SepIndex(ln)) % 2 = 1
 MutationOk(ln, g) ==
   CASE g.kind = "ok"     -> TRUE
     [] g.kind = "oddhex" -> InHexPart(ln, g.at)
     [] g.kind = "nonhex" -> InHexPart(ln, g.at) /\ IsJunkCh(g.ch)
+    [] g.kind = "nonhex2" -> PairStart(ln, g.at) /\ IsJunk2Ch(g.ch)
     [] g.kind = "lower"  -> InHexPart(ln, g.at) /\ IsUpHex(ln[g.at]) /\ g.ch = ln[g.at] + 32
     [] g.kind = "nosep"  -> g.at = SepIndex(ln)
     [] g.kind = "noterm" -> g.at = Len(ln)
@@ -156,6 +162,7 @@ MutationOk(ln, g) ==
 Mutate(ln, g) ==
   CASE g.kind = "ok" -> ln
     [] g.kind \in {"oddhex", "nosep", "noterm"} -> RemoveAt(ln, g.at)
+    [] g.kind = "nonhex2" -> ReplaceAt(ReplaceAt(ln, g.at, g.ch), g.at + 1, g.ch)
     [] OTHER -> ReplaceAt(ln, g.at, g.ch)
 
 \* what the property promises for a text made of such segments (a segment following a noterm is an "ok" one)
